@@ -16,8 +16,10 @@ import (
 // lockset: up to 16 locks, 2 bits each (1 = held shared, 2 = held exclusive).
 type lockset uint32
 
-func (l lockset) mode(i int) int            { return int(l>>(2*uint(i))) & 3 }
-func (l lockset) with(i int, m int) lockset { return (l &^ (3 << (2 * uint(i)))) | lockset(m)<<(2*uint(i)) }
+func (l lockset) mode(i int) int { return int(l>>(2*uint(i))) & 3 }
+func (l lockset) with(i int, m int) lockset {
+	return (l &^ (3 << (2 * uint(i)))) | lockset(m)<<(2*uint(i))
+}
 func (l lockset) meet(o lockset) lockset {
 	var r lockset
 	for i := 0; i < 16; i++ {
@@ -629,10 +631,12 @@ func ruleJoin(c *Ctx, rid string) {
 		if gs.Target != nil {
 			tname = fnName(gs.Target)
 		}
-		ord[fnName(gs.In)+tname]++
-		key := fmt.Sprintf("%s/go:%s", fnName(gs.In), tname)
-		if ord[fnName(gs.In)+tname] > 1 {
-			key += fmt.Sprintf("#%d", ord[fnName(gs.In)+tname])
+		// keyed by what runs in the goroutine, not by where it is started: moving the go
+		// statement into a helper does not change which goroutine Stop fails to join
+		ord[tname]++
+		key := "goroutine:" + tname
+		if ord[tname] > 1 {
+			key += fmt.Sprintf("#%d", ord[tname])
 		}
 		addBefore := false
 		allInstrs(gs.In, func(ins ssa.Instruction) {
